@@ -393,7 +393,9 @@ pub fn run(ctx: &Ctx) -> i32 {
         let mut texts = vec![];
         for n in 1..=40usize {
             for sep in [" ", " -a ", " -o ", " , "] {
-                let names: Vec<String> = (0..n).map(|k| if k % 3 == 0 { "-name x".to_string() } else { format!("-name n{k}") }).collect();
+                // operands that let evaluation reach the end of the chain on the file named x:
+                // all true under and / ',', all false under -o
+                let names: Vec<String> = (0..n).map(|k| if sep == " -o " { format!("-name n{k}") } else if k % 4 == 3 { "-true".to_string() } else { "-name x".to_string() }).collect();
                 let chain = names.join(sep);
                 texts.push(chain.clone());
                 texts.push(format!("{chain}{sep}-print"));
